@@ -1223,3 +1223,444 @@ def u_aes_gcm(ctx, u):
         ctx.nontrivial('aes-gcm-wrap', low, n, key)
         kb.free()
     ctx.sample({'kind': 'aes-gcm', 'cases': len(cases)})
+
+
+# =====================================================================================
+# ZUC, ChaCha20, GHASH
+# =====================================================================================
+def _words_host(b):
+    return list(struct.unpack('=%dI' % (len(b) // 4), b))
+
+
+def _rand_iv25(ctx):
+    r = ctx.rng.random()
+    if r < 0.05:
+        return [0] * 25
+    if r < 0.1:
+        return [0xff] * 17 + [0x3f] * 8
+    return list(ctx.rng.randbytes(17)) + [ctx.rng.randint(0, 63) for _ in range(8)]
+
+
+def u_prim_zuc(ctx, u):
+    lib = ctx.lib
+    for it in range(120 if ctx.tier == 'quick' else 1200):
+        nw = it % 40 if it % 7 else ctx.rng.randint(40, 1200)
+        key, iv = _rand_key(ctx), (ctx.rng.randbytes(16) if it > 1 else [bytes(16), b'\xff' * 16][it])
+        want = rzuc.zuc128(key, iv).words(nw + 1)
+        st, kb, ivb, ob = ctx.buf(ctx.L['sizeof_ZUC_STATE']), ctx.inbuf(key), ctx.inbuf(iv), ctx.buf(4 * nw, FILL)
+        ctx.begin(['zuc', nw, key.hex(), iv.hex()])
+        lib.zuc_init(st, kb, ivb)
+        lib.zuc_generate_keystream(st, nw, ob)
+        _check(ctx, _words_host(ob.raw()) == want[:nw], 'zuc128:keystream', key_hex=key.hex(), iv=iv.hex(), nwords=nw,
+               got=_hx(ob.raw()), want=[hex(w) for w in want[:6]])
+        w = lib.zuc_generate_keyword(st)
+        _check(ctx, w == want[nw], 'zuc128:keyword-after-keystream', key_hex=key.hex(), iv=iv.hex(), nwords=nw, got=hex(w),
+               want=hex(want[nw]))
+        ctx.nontrivial('zuc128', key, iv, nw)
+        _free(st, kb, ivb, ob)
+        # ZUC-256
+        key, iv25 = _rand_key(ctx, 32), _rand_iv25(ctx)
+        iv23 = rzuc.iv25_to_iv23(iv25)
+        want = rzuc.zuc256(key, iv25).words(nw + 1)
+        st, kb, ivb, ob = ctx.buf(ctx.L['sizeof_ZUC_STATE']), ctx.inbuf(key), ctx.inbuf(iv23), ctx.buf(4 * nw, FILL)
+        ctx.begin(['zuc256', nw, key.hex(), iv23.hex()])
+        lib.zuc256_init(st, kb, ivb)
+        lib.zuc256_generate_keystream(st, nw, ob)
+        _check(ctx, _words_host(ob.raw()) == want[:nw], 'zuc256:keystream', key_hex=key.hex(), iv=iv23.hex(), nwords=nw,
+               got=_hx(ob.raw()), want=[hex(w) for w in want[:6]])
+        w = lib.zuc256_generate_keyword(st)
+        _check(ctx, w == want[nw], 'zuc256:keyword-after-keystream', key_hex=key.hex(), iv=iv23.hex(), nwords=nw,
+               got=hex(w), want=hex(want[nw]))
+        ctx.nontrivial('zuc256', key, iv23, nw)
+        _free(st, kb, ivb, ob)
+    ctx.sample({'kind': 'prim-zuc'})
+
+
+def _zuc_mk(ctx, key, iv):
+    lib = ctx.lib
+
+    def mk():
+        c, kb, ivb = ctx.buf(ctx.L['sizeof_ZUC_CTX']), ctx.inbuf(key), ctx.inbuf(iv)
+        r = lib.zuc_encrypt_init(c, kb, ivb)
+        _free(kb, ivb)
+        if r != 1:
+            c.free()
+            return None
+        return c, lib.zuc_encrypt_update, lib.zuc_encrypt_finish
+    return mk
+
+
+def u_zuc_stream(ctx, u):
+    lib = ctx.lib
+    for n in _lens(ctx, u):
+        key, iv, msg = _rand_key(ctx), ctx.rng.randbytes(16), ctx.rng.randbytes(n)
+        want = rzuc.encrypt_bytes(key, iv, msg)
+        det = dict(key_hex=key.hex(), iv=iv.hex())
+        for pname, cuts in _partitions(ctx.rng, n, unit=4):
+            _run_stream(ctx, 'zuc:stream', _zuc_mk(ctx, key, iv), msg, cuts, want, pname, query=False,
+                        fin_cap=lambda p: p, **det)
+            ctx.nontrivial('zuc-stream', n, pname, tuple(cuts[:48]))
+        if n >= 4:
+            k = 4 * ctx.rng.randint(1, max(1, min(16, n // 4)))
+            cuts = [k] * (n // k) + ([n % k] if n % k else [])
+            _run_stream(ctx, 'zuc:stream', _zuc_mk(ctx, key, iv), msg, cuts, want, 'aligned', query=False,
+                        fin_cap=lambda p: p, inplace=True, **det)
+        if n % 4 == 0:
+            def enc1(i, o):
+                st, kb, ivb = ctx.buf(ctx.L['sizeof_ZUC_STATE']), ctx.inbuf(key), ctx.inbuf(iv)
+                lib.zuc_init(st, kb, ivb)
+                lib.zuc_encrypt(st, i, n, o)
+                _free(st, kb, ivb)
+                return n
+            _oneshot(ctx, 'zuc:encrypt-oneshot', enc1, msg, n, want, **det)
+            _oneshot(ctx, 'zuc:encrypt-oneshot:inplace', enc1, msg, n, want, inplace=True, **det)
+            _oneshot(ctx, 'zuc:encrypt-oneshot:decrypt', enc1, want, n, msg, **det)
+            ctx.nontrivial('zuc-oneshot', n, key, iv)
+    ctx.sample({'kind': 'zuc-stream'})
+
+
+def u_zuc_oneshot_unaligned(ctx, u):
+    """zuc_encrypt() on lengths that are not a multiple of the 4-byte keystream word."""
+    lib = ctx.lib
+    lens = [n for n in range(1, 70) if n % 4] + [ctx.rng.randint(70, 4000) | 1 for _ in range(10)]
+    for n in lens:
+        key, iv, msg = _rand_key(ctx), ctx.rng.randbytes(16), ctx.rng.randbytes(n)
+        want = rzuc.encrypt_bytes(key, iv, msg)
+
+        def enc1(i, o):
+            st, kb, ivb = ctx.buf(ctx.L['sizeof_ZUC_STATE']), ctx.inbuf(key), ctx.inbuf(iv)
+            lib.zuc_init(st, kb, ivb)
+            lib.zuc_encrypt(st, i, n, o)
+            _free(st, kb, ivb)
+            return n
+        _oneshot(ctx, 'zuc:encrypt-oneshot:unaligned-length', enc1, msg, n, want, key_hex=key.hex(), iv=iv.hex())
+        ctx.nontrivial('zuc-oneshot-unaligned', n, key, iv)
+    ctx.sample({'kind': 'zuc-oneshot-unaligned', 'lengths': lens[:10]})
+
+
+def _bit_lengths(ctx, u, dense_q, dense_t):
+    dense = dense_q if ctx.tier == 'quick' else dense_t
+    ls = list(range(0, dense + 1)) + [ctx.rng.randint(dense + 1, 40000) for _ in range(6 if ctx.tier == 'quick' else 30)]
+    ls += [8 * k + d for k in (512, 1024, 4096) for d in (-1, 0, 1, 7)]
+    return [n for i, n in enumerate(ls) if i % u['step'] == u['lo']]
+
+
+def u_zuc_eea(ctx, u):
+    lib = ctx.lib
+    for nbits in _bit_lengths(ctx, u, 640, 8192):
+        nw = (nbits + 31) // 32
+        key = _rand_key(ctx)
+        count, bearer, direction = ctx.rng.getrandbits(32), ctx.rng.randint(0, 31), ctx.rng.randint(0, 1)
+        if ctx.rng.random() < 0.1:
+            count = ctx.rng.choice([0, 0xFFFFFFFF, 0x80000000])
+        words = [ctx.rng.getrandbits(32) for _ in range(nw)]          # bits beyond nbits are deliberately random
+        want = rzuc.eea3(key, count, bearer, direction, nbits, words)
+        det = dict(key_hex=key.hex(), count=count, bearer=bearer, direction=direction, nbits=nbits)
+        data = struct.pack('=%dI' % nw, *words)
+        wantb = struct.pack('=%dI' % nw, *want)
+        kb = ctx.inbuf(key)
+
+        def enc1(i, o):
+            lib.zuc_eea_encrypt(i, o, nbits, kb, count, bearer, direction)
+            return 4 * nw
+        _oneshot(ctx, 'zuc-eea3:encrypt', enc1, data, 4 * nw, wantb, **det)
+        _oneshot(ctx, 'zuc-eea3:encrypt:inplace', enc1, data, 4 * nw, wantb, inplace=True, **det)
+        # decryption is the same operation; the last word of the ciphertext has its unused bits cleared
+        back = list(words)
+        if nbits % 32:
+            back[-1] &= (0xFFFFFFFF << (32 - nbits % 32)) & 0xFFFFFFFF
+        _oneshot(ctx, 'zuc-eea3:decrypt', enc1, wantb, 4 * nw, struct.pack('=%dI' % nw, *back), **det)
+        ctx.nontrivial('eea3', nbits, key, count, bearer, direction)
+        kb.free()
+    ctx.sample({'kind': 'zuc-eea'})
+
+
+def _mac_cuts(ctx, nbytes):
+    """(update pieces, bytes left for finish)."""
+    r = ctx.rng
+    choice = r.random()
+    if choice < 0.25:
+        return [], nbytes
+    tail = r.choice([0, 0, 1, 2, 3, 4, 5, r.randint(0, nbytes)])
+    tail = min(tail, nbytes)
+    cuts, left = [], nbytes - tail
+    while left > 0:
+        k = min(left, r.choice([1, 2, 3, 4, 5, 7, 8, 9, r.randint(1, max(1, left))]))
+        cuts.append(k)
+        left -= k
+    return cuts, tail
+
+
+def u_zuc_mac(ctx, u):
+    lib = ctx.lib
+    for nbits in _bit_lengths(ctx, u, 520, 4200):
+        nby = (nbits + 7) // 8
+        key, iv, msg = _rand_key(ctx), ctx.rng.randbytes(16), ctx.rng.randbytes(nby)
+        want = rzuc.mac128(key, iv, msg, nbits)
+        cuts, tail = _mac_cuts(ctx, nbits // 8)
+        c, kb, ivb, ob = ctx.buf(ctx.L['sizeof_ZUC_MAC_CTX']), ctx.inbuf(key), ctx.inbuf(iv), ctx.buf(4, FILL)
+        ctx.begin(['zuc_mac', nbits, cuts[:24], tail])
+        lib.zuc_mac_init(c, kb, ivb)
+        off = 0
+        for k in cuts:
+            ib = ctx.inbuf(msg[off:off + k])
+            lib.zuc_mac_update(c, ib, k)
+            ib.free()
+            off += k
+        rest = msg[off:]
+        rb = ctx.inbuf(rest)
+        lib.zuc_mac_finish(c, rb, nbits - 8 * off, ob)
+        _check(ctx, ob.raw() == want.to_bytes(4, 'big'), 'zuc128-mac:init-update-finish', key_hex=key.hex(), iv=iv.hex(),
+               nbits=nbits, cuts=cuts[:40], finish_bits=nbits - 8 * off, msg=_hx(msg, 64), got=ob.raw().hex(), want='%08x' % want)
+        ctx.nontrivial('zuc-mac', nbits, tuple(cuts[:48]), tail, key)
+        _free(c, kb, ivb, ob, rb)
+        # 128-EIA3
+        count, bearer, direction = ctx.rng.getrandbits(32), ctx.rng.randint(0, 31), ctx.rng.randint(0, 1)
+        want = rzuc.eia3(key, count, bearer, direction, nbits, msg)
+        kb, mb = ctx.inbuf(key), ctx.inbuf(msg)
+        ctx.begin(['zuc_eia', nbits])
+        got = lib.zuc_eia_generate_mac(mb, nbits, kb, count, bearer, direction)
+        _check(ctx, got == want, 'zuc-eia3:generate-mac', key_hex=key.hex(), count=count, bearer=bearer, direction=direction,
+               nbits=nbits, msg=_hx(msg, 64), got='%08x' % got, want='%08x' % want)
+        ctx.nontrivial('eia3', nbits, key, count, bearer, direction)
+        _free(kb, mb)
+    ctx.sample({'kind': 'zuc-mac'})
+
+
+def u_zuc256_mac(ctx, u):
+    lib = ctx.lib
+    for i, nbits in enumerate(_bit_lengths(ctx, u, 400, 4200)):
+        for macbits in ((32, 64, 128) if i % 5 == 0 else ((32, 64, 128)[i % 3],)):
+            nby = (nbits + 7) // 8
+            key, iv25, msg = _rand_key(ctx, 32), _rand_iv25(ctx), ctx.rng.randbytes(nby)
+            iv23 = rzuc.iv25_to_iv23(iv25)
+            want = rzuc.mac256(key, iv25, macbits, msg, nbits)
+            cuts, tail = _mac_cuts(ctx, nbits // 8)
+            c, kb, ivb = ctx.buf(ctx.L['sizeof_ZUC256_MAC_CTX']), ctx.inbuf(key), ctx.inbuf(iv23)
+            ob = ctx.buf(macbits // 8, FILL)
+            ctx.begin(['zuc256_mac', macbits, nbits, cuts[:24], tail])
+            lib.zuc256_mac_init(c, kb, ivb, macbits)
+            off = 0
+            for k in cuts:
+                ib = ctx.inbuf(msg[off:off + k])
+                lib.zuc256_mac_update(c, ib, k)
+                ib.free()
+                off += k
+            rb = ctx.inbuf(msg[off:])
+            lib.zuc256_mac_finish(c, rb, nbits - 8 * off, ob)
+            _check(ctx, ob.raw() == want, 'zuc256-mac:%d' % macbits, key_hex=key.hex(), iv=iv23.hex(), nbits=nbits,
+                   cuts=cuts[:40], finish_bits=nbits - 8 * off, msg=_hx(msg, 64), got=ob.raw().hex(), want=want.hex())
+            ctx.nontrivial('zuc256-mac', macbits, nbits, tuple(cuts[:48]), tail, key)
+            _free(c, kb, ivb, ob, rb)
+    ctx.sample({'kind': 'zuc256-mac'})
+
+
+def u_prim_chacha(ctx, u):
+    lib = ctx.lib
+    for it in range(80 if ctx.tier == 'quick' else 800):
+        key, nonce = _rand_key(ctx, 32), ctx.rng.randbytes(12)
+        nb1, nb2 = ctx.rng.randint(0, 5), ctx.rng.randint(1, 6)
+        sel = it % 4
+        if sel == 0:
+            counter = ctx.rng.choice([0, 1])
+        elif sel == 1:
+            counter = (1 << 32) - (nb1 + nb2)        # the last block is block 2^32 - 1, no wrap
+        else:
+            counter = ctx.rng.randint(0, (1 << 32) - 20)
+        want = rchacha.keystream(key, counter, nonce, nb1 + nb2)
+        st, kb, nb = ctx.buf(ctx.L['sizeof_CHACHA20_STATE']), ctx.inbuf(key), ctx.inbuf(nonce)
+        o1, o2 = ctx.buf(64 * nb1, FILL), ctx.buf(64 * nb2, FILL)
+        ctx.begin(['chacha20', counter, nb1, nb2])
+        lib.chacha20_init(st, kb, nb, counter)
+        lib.chacha20_generate_keystream(st, nb1, o1)
+        lib.chacha20_generate_keystream(st, nb2, o2)
+        _cmp(ctx, o1.raw() + o2.raw(), want, 'chacha20:keystream', key_hex=key.hex(), nonce=nonce.hex(), counter=counter,
+             blocks=[nb1, nb2])
+        ctx.nontrivial('chacha20', key, nonce, counter, nb1, nb2)
+        _free(st, kb, nb, o1, o2)
+    # counter wrap: RFC 8439 leaves it undefined, informational
+    st, kb, nb, o = ctx.buf(ctx.L['sizeof_CHACHA20_STATE']), ctx.inbuf(bytes(32)), ctx.inbuf(bytes(12)), ctx.buf(128)
+    lib.chacha20_init(st, kb, nb, 0xFFFFFFFF)
+    lib.chacha20_generate_keystream(st, 2, o)
+    if o.raw()[64:] == rchacha.block(bytes(32), 0, bytes(12)):
+        ctx.stat('info_chacha20_counter_wraps_to_zero_without_carry')
+    _free(st, kb, nb, o)
+    ctx.sample({'kind': 'prim-chacha'})
+
+
+def u_ghash(ctx, u):
+    lib = ctx.lib
+    # field arithmetic through the byte interface
+    for it in range(200 if ctx.tier == 'quick' else 2000):
+        a, b = ctx.rng.randbytes(16), ctx.rng.randbytes(16)
+        if it < 4:
+            a = [bytes(16), b'\x80' + bytes(15), b'\xff' * 16, bytes(15) + b'\x01'][it]
+        ga, gb, gr, ob = ctx.buf(16), ctx.buf(16), ctx.buf(16), ctx.buf(16)
+        ia, ib = ctx.inbuf(a), ctx.inbuf(b)
+        lib.gf128_from_bytes(ga, ia)
+        lib.gf128_from_bytes(gb, ib)
+        lib.gf128_mul(gr, ga, gb)
+        lib.gf128_to_bytes(gr, ob)
+        want = rghash.gf_mul(int.from_bytes(a, 'big'), int.from_bytes(b, 'big')).to_bytes(16, 'big')
+        _cmp(ctx, ob.raw(), want, 'gf128:mul', a=a.hex(), b=b.hex())
+        lib.gf128_mul_by_2(gr, ga)
+        lib.gf128_to_bytes(gr, ob)
+        _cmp(ctx, ob.raw(), rghash.gf_mul_x(int.from_bytes(a, 'big')).to_bytes(16, 'big'), 'gf128:mul_by_2', a=a.hex())
+        lib.gf128_mul(ga, ga, gb)           # result aliases an operand
+        lib.gf128_to_bytes(ga, ob)
+        _cmp(ctx, ob.raw(), want, 'gf128:mul:aliased', a=a.hex(), b=b.hex())
+        ctx.nontrivial('gf128', a, b)
+        _free(ga, gb, gr, ob, ia, ib)
+    for n in _lens(ctx, u, dense_q=80, dense_t=1024, big=False):
+        h, aad, c = ctx.rng.randbytes(16), ctx.rng.randbytes(ctx.rng.choice([0, 1, 15, 16, 17, 33, 64])), ctx.rng.randbytes(n)
+        want = rghash.ghash(h, aad, c)
+        hb, ab, cb, ob = ctx.inbuf(h), ctx.inbuf(aad), ctx.inbuf(c), ctx.buf(16, FILL)
+        ctx.begin(['ghash', len(aad), n])
+        lib.ghash(hb, ab, len(aad), cb, n, ob)
+        _cmp(ctx, ob.raw(), want, 'ghash:oneshot', h=h.hex(), aadlen=len(aad), n=n)
+        for pname, cuts in _partitions(ctx.rng, n):
+            g = ctx.buf(ctx.L['sizeof_GHASH_CTX'])
+            lib.ghash_init(g, hb, ab, len(aad))
+            off = 0
+            for k in cuts:
+                ib = ctx.inbuf(c[off:off + k])
+                lib.ghash_update(g, ib, k)
+                ib.free()
+                off += k
+            lib.ghash_finish(g, ob)
+            _cmp(ctx, ob.raw(), want, 'ghash:init-update-finish', h=h.hex(), aadlen=len(aad), n=n, cuts=cuts[:40])
+            ctx.nontrivial('ghash', len(aad), n, pname, tuple(cuts[:48]))
+            g.free()
+        _free(hb, ab, cb, ob)
+    ctx.sample({'kind': 'ghash'})
+
+
+# =====================================================================================
+# second opinion on the models (thorough tier only) and dispatch
+# =====================================================================================
+class _OpenSSL(object):
+    """Minimal EVP binding used only to cross-check vf.ref in the thorough tier."""
+
+    def __init__(self):
+        L = ctypes.CDLL('libcrypto.so.3')
+        vp = ctypes.c_void_p
+        L.EVP_CIPHER_fetch.restype = vp
+        L.EVP_CIPHER_fetch.argtypes = [vp, ctypes.c_char_p, ctypes.c_char_p]
+        L.EVP_CIPHER_CTX_new.restype = vp
+        L.EVP_CIPHER_CTX_free.argtypes = [vp]
+        L.EVP_CipherInit_ex.argtypes = [vp, vp, vp, ctypes.c_char_p, ctypes.c_char_p, ctypes.c_int]
+        L.EVP_CipherUpdate.argtypes = [vp, ctypes.c_char_p, ctypes.POINTER(ctypes.c_int), ctypes.c_char_p, ctypes.c_int]
+        L.EVP_CipherFinal_ex.argtypes = [vp, ctypes.c_char_p, ctypes.POINTER(ctypes.c_int)]
+        L.EVP_CIPHER_CTX_ctrl.argtypes = [vp, ctypes.c_int, ctypes.c_int, vp]
+        L.EVP_CIPHER_CTX_set_padding.argtypes = [vp, ctypes.c_int]
+        self.L = L
+
+    def has(self, name):
+        return bool(self.L.EVP_CIPHER_fetch(None, name.encode(), None))
+
+    def cipher(self, name, key, iv, data, pad=0):
+        L = self.L
+        c = L.EVP_CIPHER_fetch(None, name.encode(), None)
+        x = L.EVP_CIPHER_CTX_new()
+        assert c and x and L.EVP_CipherInit_ex(x, c, None, key, iv, 1) == 1
+        L.EVP_CIPHER_CTX_set_padding(x, pad)
+        out, n = ctypes.create_string_buffer(len(data) + 32), ctypes.c_int(0)
+        assert L.EVP_CipherUpdate(x, out, ctypes.byref(n), data, len(data)) == 1
+        tot = n.value
+        tmp = ctypes.create_string_buffer(32)
+        assert L.EVP_CipherFinal_ex(x, tmp, ctypes.byref(n)) == 1
+        L.EVP_CIPHER_CTX_free(x)
+        return out.raw[:tot] + tmp.raw[:n.value]
+
+    def aead(self, name, key, iv, aad, pt, taglen, ccm=False):
+        L = self.L
+        c = L.EVP_CIPHER_fetch(None, name.encode(), None)
+        x = L.EVP_CIPHER_CTX_new()
+        assert c and x and L.EVP_CipherInit_ex(x, c, None, None, None, 1) == 1
+        assert L.EVP_CIPHER_CTX_ctrl(x, 0x9, len(iv), None) == 1
+        if ccm:
+            assert L.EVP_CIPHER_CTX_ctrl(x, 0x11, taglen, None) == 1
+        assert L.EVP_CipherInit_ex(x, None, None, key, iv, 1) == 1
+        n = ctypes.c_int(0)
+        if ccm:
+            assert L.EVP_CipherUpdate(x, None, ctypes.byref(n), None, len(pt)) == 1
+        if aad:
+            assert L.EVP_CipherUpdate(x, None, ctypes.byref(n), aad, len(aad)) == 1
+        out, tot = ctypes.create_string_buffer(len(pt) + 32), 0
+        if pt or ccm:
+            assert L.EVP_CipherUpdate(x, out, ctypes.byref(n), pt, len(pt)) == 1
+            tot = n.value
+        tmp = ctypes.create_string_buffer(32)
+        assert L.EVP_CipherFinal_ex(x, tmp, ctypes.byref(n)) == 1
+        tag = ctypes.create_string_buffer(16)
+        assert L.EVP_CIPHER_CTX_ctrl(x, 0x10, taglen, ctypes.cast(tag, ctypes.c_void_p)) == 1
+        L.EVP_CIPHER_CTX_free(x)
+        return out.raw[:tot], tag.raw[:taglen]
+
+
+def _second_opinion():
+    """vf.ref against OpenSSL on seeded inputs; an AssertionError makes the run inconclusive (oracle broken)."""
+    import random
+    try:
+        o = _OpenSSL()
+    except OSError:
+        return 0
+    r = random.Random(0xC04)
+    done = 0
+    for i in range(40):
+        k, iv, d = r.randbytes(16), r.randbytes(16), r.randbytes(r.randint(0, 300))
+        if i % 5 == 0:
+            iv = b'\xff' * 15 + bytes([r.randint(0xfc, 0xff)])
+        S = rsm4.SM4(k)
+        if o.has('SM4-CBC'):
+            assert o.cipher('SM4-ECB', k, None, d[:len(d) // 16 * 16]) == rm.ecb_encrypt(S, d[:len(d) // 16 * 16])
+            assert o.cipher('SM4-CBC', k, iv, d, 1) == rm.cbc_pad_encrypt(S, iv, d)
+            assert o.cipher('SM4-CTR', k, iv, d) == rm.ctr_crypt(S, iv, d)
+            assert o.cipher('SM4-CFB', k, iv, d) == rm.cfb_encrypt(S, iv, d, 16)
+            assert o.cipher('SM4-OFB', k, iv, d) == rm.ofb_crypt(S, iv, d)
+            done += 5
+        ka = r.randbytes((16, 24, 32)[i % 3])
+        A = raes.AES(ka)
+        nm = 'AES-%d-' % (8 * len(ka))
+        assert o.cipher(nm + 'CBC', ka, iv, d, 1) == rm.cbc_pad_encrypt(A, iv, d)
+        assert o.cipher(nm + 'CTR', ka, iv, d) == rm.ctr_crypt(A, iv, d)
+        assert o.cipher(nm + 'CFB8', ka, iv, d[:64]) == rm.cfb_encrypt(A, iv, d[:64], 1)
+        assert o.cipher(nm + 'OFB', ka, iv, d) == rm.ofb_crypt(A, iv, d)
+        ivg, aad, tl = r.randbytes(r.randint(1, 64)), r.randbytes(r.randint(0, 64)), r.randint(12, 16)
+        assert o.aead(nm + 'GCM', ka, ivg, aad, d, tl) == rm.gcm_encrypt(A, ivg, aad, d, tl)
+        nonce, tl = r.randbytes(r.randint(7, 13)), r.choice([4, 6, 8, 10, 12, 14, 16])
+        aad = r.randbytes(r.choice([0, 1, 13, 14, 15, 30, r.randint(0, 70)]))
+        assert o.aead(nm + 'CCM', ka, nonce, aad, d, tl, ccm=True) == rm.ccm_encrypt(A, nonce, aad, d, tl)
+        if len(d) >= 16:
+            k2 = r.randbytes(32)
+            assert o.cipher('AES-128-XTS', k2, iv, d) == rm.xts_encrypt(raes.AES(k2[:16]), raes.AES(k2[16:]), iv, d, 'ieee')
+        if o.has('ChaCha20'):
+            kc, nonce, ctr = r.randbytes(32), r.randbytes(12), r.randint(0, (1 << 32) - 10)
+            assert o.cipher('ChaCha20', kc, ctr.to_bytes(4, 'little') + nonce, d) == rchacha.encrypt(kc, ctr, nonce, d)
+        done += 8
+    return done
+
+
+def worker_init(ctx):
+    rsm4.selftest()
+    raes.selftest()
+    rzuc.selftest()
+    rchacha.selftest()
+    rghash.selftest()
+    rm.selftest()
+    if ctx.tier == 'thorough':
+        _second_opinion()
+
+
+UNITS = {
+    'prim-sm4': u_prim_sm4, 'blockcipher': u_blockcipher, 'ecb': u_ecb, 'cbc': u_cbc, 'ctr': u_ctr, 'ctr32': u_ctr32,
+    'cfb': u_cfb, 'ofb': u_ofb, 'xts': u_xts, 'gcm': u_gcm, 'gcm-stream': u_gcm_stream,
+    'gcm-stream-shorttag': u_gcm_stream_shorttag, 'ccm': u_ccm, 'cbcmac': u_cbcmac, 'wrap': u_wrap,
+    'prim-aes': u_prim_aes, 'aes-cbc': u_aes_cbc, 'aes-ctr': u_aes_ctr, 'aes-gcm': u_aes_gcm,
+    'prim-zuc': u_prim_zuc, 'zuc-stream': u_zuc_stream, 'zuc-oneshot-unaligned': u_zuc_oneshot_unaligned,
+    'zuc-eea': u_zuc_eea, 'zuc-mac': u_zuc_mac, 'zuc256-mac': u_zuc256_mac, 'prim-chacha': u_prim_chacha, 'ghash': u_ghash,
+}
+
+
+def run_unit(ctx, u):
+    UNITS[u['kind']](ctx, u)
